@@ -16,6 +16,7 @@ import Koreo.Lemmas.WorkflowAsync
 import Koreo.Lemmas.WorkflowSchedule
 import Koreo.Lemmas.WorkflowNested
 import Koreo.Gen.WorkflowConsts
+import Koreo.Lemmas.KindLookup
 
 namespace Koreo.C02
 open Koreo Koreo.Workflow
@@ -388,5 +389,67 @@ example : nrunEvents evalStd exRun nDefs 1 nWf .null [.here (.step "a"), .here (
 example : nrunEvents evalStd exRun nDefs 1 nWf .null [.inside "s" none (.here (.step "in0"))] .empty = none := by
   decide
 end nested_example
+
+/-! ## kind discovery inside a pass (`kind_lookup.get_plural_kind`) does not make the result depend on timing
+
+Model `Koreo/KindLookup.lean`: tasks entering `get_plural_kind` (`call`), the API answering an owner's discovery
+call (`answer`) and waiters running again (`wake`), in ANY interleaving, from the cold tables of a first pass.
+If the in-flight lock is filed under the key the result is remembered under (`lk` injective — at HEAD it is the
+same string), every request returns the plural the API serves for ITS OWN `kind.apiVersion`, whichever
+discovery was in flight when it arrived: nobody raises "Waiting on … failed." and nobody is handed another
+group's plural.  So the step outcome built on it is the same under every timing. -/
+section kind_lookup
+open Koreo.KindLookup
+
+/-- every interleaving, any number of kinds / groups / requesters, lock entries kept or released -/
+theorem discovery_independent_of_timing (c : Cfg) (hinj : ∀ a b, c.lk a = c.lk b → a = b)
+    (σ : List Ev) {s : St} (h : KindLookup.run c cold σ = some s) (r : Nat) (k : Key) (p : Option String)
+    (hr : s.reqs r = some (.done k p)) : p = some (c.srv k) :=
+  (inv_run c hinj σ cold s (inv_cold c) h).done_ok r k p hr
+
+/-- the code at HEAD (lock key = result key, entries kept) is an instance -/
+theorem discovery_independent_of_timing_head (srv : Key → String) (σ : List Ev) {s : St}
+    (h : KindLookup.run (head srv) cold σ = some s) (r : Nat) (k : Key) (p : Option String)
+    (hr : s.reqs r = some (.done k p)) : p = some (srv k) :=
+  discovery_independent_of_timing (head srv) (fun _ _ e => e) σ h r k p hr
+
+/-- two schedules that end with the same request answered give it the same answer -/
+theorem discovery_schedules_agree (c : Cfg) (hinj : ∀ a b, c.lk a = c.lk b → a = b) (σ₁ σ₂ : List Ev) (r : Nat)
+    (p₁ p₂ : Option String) (h₁ : KindLookup.answerOf c σ₁ r = some p₁) (h₂ : KindLookup.answerOf c σ₂ r = some p₂)
+    (k : Key) (hk₁ : ∀ s, KindLookup.run c cold σ₁ = some s → ∃ p, s.reqs r = some (.done k p))
+    (hk₂ : ∀ s, KindLookup.run c cold σ₂ = some s → ∃ p, s.reqs r = some (.done k p)) : p₁ = p₂ := by
+  unfold KindLookup.answerOf at h₁ h₂
+  cases e₁ : KindLookup.run c cold σ₁ with
+  | none => simp [e₁] at h₁
+  | some s₁ =>
+    cases e₂ : KindLookup.run c cold σ₂ with
+    | none => simp [e₂] at h₂
+    | some s₂ =>
+      obtain ⟨q₁, hq₁⟩ := hk₁ s₁ e₁
+      obtain ⟨q₂, hq₂⟩ := hk₂ s₂ e₂
+      simp only [e₁, hq₁, Option.some.injEq] at h₁
+      simp only [e₂, hq₂, Option.some.injEq] at h₂
+      subst h₁ h₂
+      rw [discovery_independent_of_timing c hinj σ₁ e₁ r k q₁ hq₁,
+          discovery_independent_of_timing c hinj σ₂ e₂ r k q₂ hq₂]
+
+/-- the hypothesis is needed: with the lock filed under the bare kind word (two groups share it) and released
+    when the lookup ends, request 2 (`Bucket.aws.x/v1`) is served when it arrives after the discovery of
+    `Bucket.gcp.x/v1` has ended, and FAILS when it arrives while that call is in flight -/
+private def srvEx : Key → String := fun k => "plural of " ++ k
+private def wordCfg : Cfg := ⟨kindWord, true, srvEx⟩
+private def gcp := lookupKey "Bucket" "gcp.x/v1"
+private def aws := lookupKey "Bucket" "aws.x/v1"
+
+example : KindLookup.answerOf wordCfg [.call 1 gcp, .answer 1, .call 2 aws, .answer 2] 2 = some (some "plural of Bucket.aws.x/v1") := by decide
+example : KindLookup.answerOf wordCfg [.call 1 gcp, .call 2 aws, .answer 1, .wake 2] 2 = some none := by decide
+/-- … whereas at HEAD both arrivals are served (and two tasks of ONE group share one discovery) -/
+example : KindLookup.answerOf (head srvEx) [.call 1 gcp, .answer 1, .call 2 aws, .answer 2] 2 = some (some "plural of Bucket.aws.x/v1") := by decide
+example : KindLookup.answerOf (head srvEx) [.call 1 gcp, .call 2 aws, .answer 1, .answer 2] 2 = some (some "plural of Bucket.aws.x/v1") := by decide
+example : KindLookup.answerOf (head srvEx) [.call 1 gcp, .call 2 aws, .call 3 gcp, .answer 2, .answer 1, .wake 3] 3
+    = some (some "plural of Bucket.gcp.x/v1") := by decide
+/-- a waiter cannot run before its event is set; an owner is answered once -/
+example : KindLookup.answerOf (head srvEx) [.call 1 gcp, .call 3 gcp, .wake 3] 3 = none := by decide
+end kind_lookup
 
 end Koreo.C02
